@@ -736,10 +736,12 @@ func (u *Unit) litResult(env *Env, li *litInfo, sig *types.Signature, args []Ter
 }
 
 // sort.SliceStable(x, less) / sort.Slice(x, less).  TRUSTED library contract:
-//   requires  less is element-determined (its answer for positions i, j depends only on the elements currently there) and is a
-//             strict weak ordering (irreflexive, transitive, incomparability transitive);
-//   ensures   the cells of x are a permutation p of the old cells (x[i] == old(x)[p[i]]), ordered (no i<j with less(j,i)), and -
-//             SliceStable only - stable (for i<j, !less(i,j) ==> p[i] < p[j]); nothing else changes.
+//
+//	requires  less is element-determined (its answer for positions i, j depends only on the elements currently there) and is a
+//	          strict weak ordering (irreflexive, transitive, incomparability transitive);
+//	ensures   the cells of x are a permutation p of the old cells (x[i] == old(x)[p[i]]), ordered (no i<j with less(j,i)), and -
+//	          SliceStable only - stable (for i<j, !less(i,j) ==> p[i] < p[j]); nothing else changes.
+//
 // What is verified about fpGo is that each call site meets the precondition with the relation and slice the property names.
 func (u *Unit) sortSliceStable(c *ast.CallExpr, env *Env) []Outcome {
 	stable := true
@@ -1085,7 +1087,6 @@ func (u *Unit) opaqueIfaceEvent(c *ast.CallExpr, se *ast.SelectorExpr, iname str
 	u.assumeUsed("implementations of " + iname + " act on library objects only through exported methods")
 	return ret(env, vals...)
 }
-
 
 func unparen0(e ast.Expr) ast.Expr {
 	if e == nil {
